@@ -35,7 +35,7 @@ package pkg
 
 //@ func ValidateWithConfiguration(profileText string, jsonldText string, debug bool, eventChan *chan e.Event, validationConfig c.ValidationConfiguration, reportConfig c.ReportConfiguration) (string, error)
 //@   verify [C03,C12,C14,C06]
-//@   requires validationConfig != nil
+//@   requires reportConfig.IncludeReportCreationTime ==> validationConfig != nil
 //@   requires [C04:not-yet] !ldRejected
 //@   ensures [C04:jsonld-rejected-no-verdict] ldRejected ==> (result1 != nil && result0 == "")
 //@   requires [C08:not-yet] !opaRejected && !opaEvaluated
@@ -47,7 +47,7 @@ package pkg
 
 //@ func ValidateCompiledWithConfiguration(compiledRegoPtr *rego.PreparedEvalQuery, jsonldText string, debug bool, eventChan *chan e.Event, validationConfig c.ValidationConfiguration, reportConfig c.ReportConfiguration) (string, error)
 //@   verify [C03,C12,C14,C06]
-//@   requires compiledRegoPtr != nil && validationConfig != nil
+//@   requires compiledRegoPtr != nil && (reportConfig.IncludeReportCreationTime ==> validationConfig != nil)
 //@   requires [C04:not-yet] !ldRejected
 //@   ensures [C04:jsonld-rejected-no-verdict] ldRejected ==> (result1 != nil && result0 == "")
 //@   requires [C11:compiled] eventChan != nil ==> (chanClosed == 0 && !evOpen && evNext == 3)
